@@ -707,13 +707,29 @@ def enumerate_paths(fn, start, on_call, max_paths=400, follow_errors=False, on_s
                 sd = fn.single_def(o[1][1][0])
                 if sd is not None and sd[2][0] == "call":
                     src = ("call", sd[2][1], sd[0])
+                else:
+                    # discriminant of (a projection of) a parameter: say which one
+                    po = provenance(fn, ["c", o[1][1]], transparent=())[-1]
+                    rest = ()
+                    for _ in range(4):
+                        # through a tuple built from the operands (`match (a, b)`): field k of the tuple is operand k
+                        if po[0] == "place" and len(po[1]) >= 2 and re.match(r"f\d+:", str(po[1][1])):
+                            sd2 = fn.single_def(po[1][0])
+                            k2 = int(re.match(r"f(\d+):", po[1][1]).group(1))
+                            if sd2 is not None and sd2[2][0] == "agg" and sd2[2][1].get("k") == "tuple" and k2 < len(sd2[2][2]):
+                                rest = tuple(x for x in po[1][2:] if x != "*") + rest
+                                po = provenance(fn, sd2[2][2][k2], transparent=())[-1]
+                                continue
+                        break
+                    if po[0] == "param":
+                        src = ("param", po[1], tuple(x for x in po[2] if x != "*") + rest)
             if var and var["enum"] == "core::ops::control_flow::ControlFlow" and not follow_errors:
                 for v, tb in t["vals"]:
                     if var["names"].get(v) == "Continue":
                         return walk(tb, conds, toks, seen, env)
                 return walk(t["else"], conds, toks, seen, env)
             names = var["names"] if var else {}
-            d = describe(src) if src else "switch"
+            d = describe(src) if src and src[0] == "call" else "switch"
             taken = set()
             for v, tb in t["vals"]:
                 taken.add(v)
